@@ -830,6 +830,7 @@ impl<K: KeyT> SetWorld<K> {
         let toks: Vec<SE> = items.iter().map(|k| (k.id(), k.serial())).collect();
         sim().probe(Probe::FromArray);
         sim().quiet = true;
+        let extra = [0usize, 0, 1, 3, 9, 23, 100][(ids.iter().sum::<u32>() as usize + ids.len()) % 7];
         let r = std::panic::catch_unwind(std::panic::AssertUnwindSafe(|| {
             let s: DSet<K> = match items.len() {
                 0 => build::<K, 0>(items),
@@ -844,13 +845,17 @@ impl<K: KeyT> SetWorld<K> {
             let len = s.len();
             let ok = s.iter().all(|k| k.intact());
             drop(s);
-            (got, len, ok)
+            let ct = crate::ctors::set_ctors::<K>(ids, extra);
+            (got, len, ok, ct)
         }));
         sim().quiet = false;
-        let (mut got, len, ok) = match r {
+        let (mut got, len, ok, ct) = match r {
             Ok(x) => x,
             Err(_) => vio!(self, "panic/FromIter", "HashSet::from(array of {} elements) panicked", toks.len()),
         };
+        if let Err((class, msg)) = ct {
+            vio!(self, class, "{}", msg);
+        }
         if !ok {
             vio!(self, "ledger/invalid-ref", "HashSet::from(array) holds an element that is not live");
         }
